@@ -8,9 +8,35 @@ import os
 import shutil
 from pathlib import Path
 
-SPELLINGS = ['abs', 'rel', 'rel-trailing-slash', 'rel-double-slash', 'dot-rel', 'updown', 'abs-updown', 'abs-double-lead', 'dot', 'empty', 'dot-slash']
+SPELLINGS = ['abs', 'rel', 'rel-trailing-slash', 'rel-double-slash', 'dot-rel', 'updown', 'abs-updown', 'abs-double-lead', 'dot', 'empty', 'dot-slash',
+             'abs-trailing-slash', 'abs-dot-inside', 'abs-double-slash-inside', 'parent-rel', 'updown-twice', 'rel-trailing-dot', 'dot-updown']
 # spellings whose pathlib form has no parts (str(Path(s)) == '.')
 DOT_SPELLINGS = ('dot', 'empty', 'dot-slash')
+
+
+def table(b):
+    """label -> (cwd, connection string) for a case directory `b` (a string; the harness uses the real directory, the model a stand-in)"""
+    r = b + '/repo'
+    return {
+        'abs': (b, r),
+        'rel': (b, 'repo'),
+        'rel-trailing-slash': (b, 'repo/'),
+        'rel-double-slash': (b, 'repo//'),
+        'dot-rel': (b, './repo'),
+        'updown': (b, 'x/../repo'),
+        'abs-updown': (b, b + '/x/../repo'),
+        'abs-double-lead': (b, '//' + r.lstrip('/')),    # POSIX: exactly two leading slashes are kept by pathlib; Linux resolves them as '/'
+        'dot': (r, '.'),
+        'empty': (r, ''),
+        'dot-slash': (r, './'),
+        'abs-trailing-slash': (b, r + '/'),
+        'abs-dot-inside': (b, b + '/./repo'),
+        'abs-double-slash-inside': (b, b + '//repo'),
+        'parent-rel': (b + '/x', '../repo'),             # the working directory is a sibling of the repository
+        'updown-twice': (b, 'x/../x/../repo/'),
+        'rel-trailing-dot': (b, 'repo/.'),
+        'dot-updown': (r, '../repo'),                    # from inside the repository directory
+    }
 
 
 class LocalCase:
@@ -23,20 +49,7 @@ class LocalCase:
 
     def spelling(self, label):
         """(cwd, connection string)"""
-        b, r = str(self.base), str(self.repo)
-        return {
-            'abs': (b, r),
-            'rel': (b, 'repo'),
-            'rel-trailing-slash': (b, 'repo/'),
-            'rel-double-slash': (b, 'repo//'),
-            'dot-rel': (b, './repo'),
-            'updown': (b, 'x/../repo'),
-            'abs-updown': (b, b + '/x/../repo'),
-            'abs-double-lead': (b, '//' + r.lstrip('/')),    # POSIX: exactly two leading slashes are kept by pathlib; Linux resolves them as '/'
-            'dot': (r, '.'),
-            'empty': (r, ''),
-            'dot-slash': (r, './'),
-        }[label]
+        return table(str(self.base))[label]
 
     def enter(self, label):
         cwd, s = self.spelling(label)
